@@ -61,19 +61,19 @@ type mapEvent struct {
 	DLoad int     `json:"dloads"` // distinct names among them
 	Ents  [][]int `json:"ents"`   // result of iter / cursor walk
 	// MakeRoot
-	Link   []term `json:"link"`
-	Name   string `json:"name"`
-	RH     int    `json:"rh"`
-	RS     int    `json:"rs"`
-	RBF    int    `json:"rbf"`
-	RNF    string `json:"rnf"`
-	W      []term `json:"w"`
+	Link   []term   `json:"link"`
+	Name   string   `json:"name"`
+	RH     int      `json:"rh"`
+	RS     int      `json:"rs"`
+	RBF    int      `json:"rbf"`
+	RNF    string   `json:"rnf"`
+	W      []term   `json:"w"`
 	WNames []string `json:"wnames"`
-	JSON   bool   `json:"json"`
-	Cached bool   `json:"cached"`
-	Obs    []obsT  `json:"obs"`
-	RObs   []robsT `json:"robs"`
-	Cfg    *mapCfg `json:"cfg,omitempty"`
+	JSON   bool     `json:"json"`
+	Cached bool     `json:"cached"`
+	Obs    []obsT   `json:"obs"`
+	RObs   []robsT  `json:"robs"`
+	Cfg    *mapCfg  `json:"cfg,omitempty"`
 }
 
 type mapHandle struct {
@@ -220,14 +220,14 @@ func (r *mapRun) emit(ev *mapEvent) {
 }
 
 type absOp struct {
-	Op   string `json:"op"`
-	H    int    `json:"h"`
-	G    int    `json:"g"`
-	K    int    `json:"k"`
-	V    int    `json:"v"`
-	R    int    `json:"r"`
-	JSON bool   `json:"json"`
-	Cached bool `json:"cached"`
+	Op     string `json:"op"`
+	H      int    `json:"h"`
+	G      int    `json:"g"`
+	K      int    `json:"k"`
+	V      int    `json:"v"`
+	R      int    `json:"r"`
+	JSON   bool   `json:"json"`
+	Cached bool   `json:"cached"`
 }
 
 func (r *mapRun) reset() {
